@@ -1,0 +1,144 @@
+//go:build verif
+
+package gmars
+
+// Step tracing for the verification machinery in /verif (built only with -tags verif).
+// When the environment variable VERIF_STEP_TRACE names a file, every task the simulator
+// executes is appended to it as one JSON line: the core and the warrior's queue just
+// before exec (after the task was popped) and the cells and queue just after it.  The
+// lines are validated against the TLA+ specification of a task execution; this is how
+// the repository's own test suite is checked step by step.  Nothing is recorded, and no
+// behaviour changes, when the variable is unset.  On cores above VERIF_STEP_TRACE_MAXM
+// cells (default 256) only the first 200 steps of each simulator are recorded, with
+// the core written sparsely (cells that differ from the initial DAT.F $0, $0).
+
+import (
+	"bufio"
+	"fmt"
+	"os"
+	"strconv"
+	"sync"
+)
+
+var verifTrace struct {
+	once sync.Once
+	mu   sync.Mutex
+	w    *bufio.Writer
+	f    *os.File
+	maxM Address
+	big  map[*reportSim]int
+}
+
+type verifSnap struct {
+	on   bool
+	big  bool
+	mem  []Instruction
+	qpre []Address
+}
+
+func verifTraceOpen() {
+	path := os.Getenv("VERIF_STEP_TRACE")
+	if path == "" {
+		return
+	}
+	f, err := os.OpenFile(path, os.O_APPEND|os.O_CREATE|os.O_WRONLY, 0o644)
+	if err != nil {
+		return
+	}
+	verifTrace.f = f
+	verifTrace.w = bufio.NewWriter(f)
+	verifTrace.maxM = 256
+	if v, err := strconv.Atoi(os.Getenv("VERIF_STEP_TRACE_MAXM")); err == nil && v > 0 {
+		verifTrace.maxM = Address(v)
+	}
+}
+
+func verifIns(i Instruction) string {
+	return fmt.Sprintf("[%d,%d,%d,%d,%d,%d]", i.Op, i.OpMode, i.AMode, i.A, i.BMode, i.B)
+}
+
+// verifBefore is called after the task was popped and before it is executed.
+func (s *reportSim) verifBefore(pc Address, w *warrior) verifSnap {
+	verifTrace.once.Do(verifTraceOpen)
+	if verifTrace.w == nil {
+		return verifSnap{}
+	}
+	big := s.m > verifTrace.maxM
+	if big {
+		verifTrace.mu.Lock()
+		if verifTrace.big == nil {
+			verifTrace.big = make(map[*reportSim]int)
+		}
+		verifTrace.big[s]++
+		n := verifTrace.big[s]
+		if n == 201 {
+			fmt.Fprintf(verifTrace.w, "{\"skip\":1,\"M\":%d}\n", s.m)
+			verifTrace.w.Flush()
+		}
+		verifTrace.mu.Unlock()
+		if n > 200 {
+			return verifSnap{}
+		}
+	}
+	mem := make([]Instruction, len(s.mem))
+	copy(mem, s.mem)
+	return verifSnap{on: true, big: big, mem: mem, qpre: w.pq.Values()}
+}
+
+// verifAfter is called when exec has returned, before anything else looks at the state.
+func (s *reportSim) verifAfter(snap verifSnap, pc Address, w *warrior) {
+	if !snap.on {
+		return
+	}
+	verifTrace.mu.Lock()
+	defer verifTrace.mu.Unlock()
+	b := verifTrace.w
+	fmt.Fprintf(b, "{\"M\":%d,\"RL\":%d,\"WL\":%d,\"P\":%d,\"w\":%d,\"pc\":%d,\"qpre\":[", s.m, s.readLimit, s.writeLimit, s.maxProcs, w.index, pc)
+	for k, a := range snap.qpre {
+		if k > 0 {
+			b.WriteByte(',')
+		}
+		fmt.Fprintf(b, "%d", a)
+	}
+	if snap.big {
+		b.WriteString("],\"sparse\":1,\"pre\":[")
+		first := true
+		for a, i := range snap.mem {
+			if i != (Instruction{}) {
+				if !first {
+					b.WriteByte(',')
+				}
+				first = false
+				fmt.Fprintf(b, "[%d,%s]", a, verifIns(i))
+			}
+		}
+	} else {
+		b.WriteString("],\"sparse\":0,\"pre\":[")
+		for k, i := range snap.mem {
+			if k > 0 {
+				b.WriteByte(',')
+			}
+			b.WriteString(verifIns(i))
+		}
+	}
+	b.WriteString("],\"d\":[")
+	first := true
+	for a := range s.mem {
+		if s.mem[a] != snap.mem[a] {
+			if !first {
+				b.WriteByte(',')
+			}
+			first = false
+			fmt.Fprintf(b, "[%d,%s]", a, verifIns(s.mem[a]))
+		}
+	}
+	b.WriteString("],\"q\":[")
+	for k, a := range w.pq.Values() {
+		if k > 0 {
+			b.WriteByte(',')
+		}
+		fmt.Fprintf(b, "%d", a)
+	}
+	b.WriteString("]}\n")
+	b.Flush()
+}
